@@ -491,6 +491,29 @@ def csv_rule(index, rep):
     ok = len(dfs) == 1 and len(writes) == 1 and norm_src(writes[0].func.value) == norm_src(dfs[0].targets[0]) and \
         not [k for k in writes[0].keywords if k.arg in ("float_format", "columns", "decimal")]
     rep.check(ok, rule, "written-unformatted", "the table is not written as pd.DataFrame(dict).to_csv(path) without number formatting", loc=loc(INT, fn))
+    # the write happens on every call: every enclosing conditional is a literal-True flag, nothing returns before it
+    if len(writes) == 1:
+        w = writes[0]
+        conds = []
+        p = getattr(w, "_parent", None)
+        child = w
+        while p is not None and p is not fn:
+            if isinstance(p, (ast.If, ast.While, ast.For, ast.Try, ast.With, ast.IfExp)):
+                if isinstance(p, ast.If):
+                    in_body = any(child is x for x in p.body)
+                    flag = isinstance(p.test, ast.Name) and in_body and [
+                        norm_src(a.value) for a in walk_no_nested(fn) if isinstance(a, ast.Assign) and any(
+                            isinstance(t, ast.Name) and t.id == p.test.id for t in a.targets)] == ["True"]
+                    if not flag:
+                        conds.append(f"if {norm_src(p.test)[:60]}" + ("" if in_body else " (else arm)"))
+                elif not isinstance(p, ast.With):
+                    conds.append(type(p).__name__)
+            child = p
+            p = getattr(p, "_parent", None)
+        early = [r.lineno for r in walk_no_nested(fn) if isinstance(r, (ast.Return, ast.Raise)) and r.lineno < w.lineno]
+        rep.check(not conds and not early, rule, "written-on-every-call",
+                  "the table is not (re)written on every call: " + "; ".join(conds + [f"return/raise at line {l} precedes the write" for l in early]) +
+                  " - a run can leave a stale table from an earlier run next to a different returned result", loc=loc(INT, w))
     # the kcal-equivalent attributes are assigned once (in assign_kcals_equivalent_from_extractor) and not touched before the write
     ms = index.methods(INT, "Interpreter")
     writers = {}
@@ -524,6 +547,8 @@ def split(index, rep):
     rule = "C04.SPLIT"
     fn = index.func(EXT, "Extractor.to_monthly_list_outdoor_crops_kcals")
     loops = [s for s in fn.body if isinstance(s, ast.For)]
+    if not loops:
+        return split_vectorised(index, rep, fn)
     if len(loops) != 1:
         raise AnalysisError("to_monthly_list_outdoor_crops_kcals: month loop not found")
     loop = loops[0]
@@ -572,6 +597,67 @@ def split(index, rep):
     if n != 2:
         raise AnalysisError(f"crop split: {n} arms analysed, expected 2")
     rep.require_min(rule, 3)
+
+
+def split_vectorised(index, rep, fn):
+    """the split written as whole-array numpy code: evaluated elementwise (one generic month), every feasible combination of
+    the elementwise comparisons must give immediate + new-storage = eaten x conversion"""
+    from .symx import NArr, RLE, RLECat, EIDX, NSYM, PDict, _segs, _Return
+    from .nphooks import np_hook
+    from .rat import feasible, implied_substitutions
+    rule = "C04.SPLIT"
+
+    def runit(it):
+        it.call_hook = np_hook
+        env = {"crops_kcals_produced": NArr([(Rat.atom(("produced",)), Rat.atom(NSYM))]), "crops_food_eaten": Opaque("eaten"),
+               "conversion": Rat.atom(("conv",)), "self": Obj(None, {"constants": PDict({"NMONTHS": Rat.atom(NSYM)})}, "self")}
+        body = [s for s in fn.body if not (isinstance(s, ast.Expr) and isinstance(s.value, ast.Constant))]
+        try:
+            it.exec_block(body, env)
+        except _Return as r:
+            return r.value
+        return None
+
+    try:
+        envs = explore(runit, month_classes=False)
+    except Unsupported as e:
+        raise AnalysisError(f"crop split (array form) outside the analysed fragment: {e}")
+    conv = Rat.atom(("conv",))
+    n = 0
+    for _, dec, res, it in envs:
+        if isinstance(res, Abort):
+            continue
+        cons = [(it.pred_exprs[k][0], it.pred_exprs[k][1] if v else _negate(it.pred_exprs[k][1])) for k, v in dec.items() if k in it.pred_exprs]
+        if not feasible(cons):
+            continue
+        val = getattr(res, "value", res)
+        parts = val.items if isinstance(val, PList) else (list(val) if isinstance(val, tuple) else None)
+        if parts is None or len(parts) != 2:
+            raise AnalysisError("to_monthly_list_outdoor_crops_kcals no longer returns two series")
+        sa, sb = _segs(parts[0]), _segs(parts[1])
+        arm = ",".join(f"{'T' if v else 'F'}" for v in dec.values())
+        n += 1
+        ok = sa is not None and sb is not None and len(sa) == 1 and len(sb) == 1
+        if ok:
+            a, b = it.to_rat(sa[0][0]), it.to_rat(sb[0][0])
+            pool = set((a + b).atoms())
+            for c in cons:
+                pool |= set(c[0].atoms())
+            eat = sorted({x for x in pool if isinstance(x, tuple) and x and x[0] == "varValue"})
+            sub = implied_substitutions(cons)
+            ok = len(eat) == 1 and (a + b).subst(sub) == (Rat.atom(eat[0]) * conv).subst(sub) and sa[0][1] == Rat.atom(NSYM) \
+                and sb[0][1] == Rat.atom(NSYM)
+        rep.check(ok, rule, f"immediate + new-storage = eaten x conversion [array form, arm {arm}]",
+                  "the two parts of crops eaten do not add up to the crops eaten (or are scaled differently / not one value per month) for "
+                  "months where " + " and ".join(f"{c[0]} {c[1]} 0" for c in cons), loc=loc(EXT, fn),
+                  detail=f"{sa[0][0] if sa else None} + {sb[0][0] if sb else None}")
+    if n < 2:
+        raise AnalysisError(f"crop split (array form): {n} arms analysed, expected at least 2")
+    rep.require_min(rule, 2)
+
+
+def _negate(op):
+    return {"<": ">=", "<=": ">", ">": "<=", ">=": "<", "==": "!=", "!=": "=="}[op]
 
 
 def describe(rep):
